@@ -183,7 +183,7 @@ def oracle_kernels(ctx):
 
 RULE = ('seeded admissible configurations from one PRNG (VERIF_SEED): the 20 named configurations deformed harmonic by harmonic and synthetic axes with nfp 1..5, '
         'all sign pairs, rs/zc/sigma0/I2/p2/B2s nonzero with probability 1/2, nphi in {15,21,25,31}; rejected unless R0 > 0, curvature bounded away from 0 and the '
-        'first-order solve converged; a case is distinct by its constructor arguments and non-trivial when its profiles are not constant')
+        'first-order solve converged at nphi and at 2 nphi + 1 with iota within 1 %; a case is distinct by its constructor arguments and non-trivial when its profiles are not constant')
 CONTINUUM = ('continuum (differential-field) theorems read np.matmul(d_d_varphi, .) as a derivation; on the grid they hold up to the discretisation error of the '
              'pseudo-spectral derivative, which is measured by the oracle on a resolution ladder (n, 2n+1, 4n+3), not proved')
 
